@@ -56,9 +56,7 @@ def run(O, P):
             O.evaluations += 1
             def bad(what, **extra):
                 O.violation(what, dict({"case": C.one_call_case(case)}, **extra))
-            if cout.get("outcome") == "panic":
-                bad("panic: " + cout.get("panic", "")[:200]); continue
-            if cout.get("outcome") != "ok" or cout["result"]["metrics"]["status"] != "modified":
+            if not C.is_modified(cout):
                 stats["not-modified-or-refused"] += 1
                 continue
             content = cout["result"]["content"]
